@@ -316,3 +316,106 @@ Example C13_ex_block_iter :
   nth_error (fst (bi_run (ex_entries 40) 0 [CSeek (fst (ex_entry 17))])) 0
     = Some (Some (ex_entry 17)).
 Proof. vm_compute. split; reflexivity. Qed.
+
+(** * Part b: Table::get and the two-level iterator *)
+From RainVerif.proofs Require Import TableProofs.
+Open Scope N_scope.
+
+
+(** The two-level iterator is a sorted-list cursor over the whole entry list under any sequence
+    of cursor operations.  [true] = no panic and no fuel exhaustion.  The side condition on
+    [CLast] is necessary: see [C13_two_level_empty_table_counterexample]. *)
+Theorem C13_two_level_refines :
+  forall (t : table) (es : list entry),
+    table_wf t es ->
+    length (t_index t) = length (t_blocks t) ->
+    Forall (fun b => b <> []) (t_blocks t) ->
+    forall ops, (In CLast ops -> t_blocks t <> []) ->
+    tl_run t tl_new ops = (lc_run es None ops, true).
+Proof. exact two_level_refines. Qed.
+Print Assumptions C13_two_level_refines.
+
+Theorem C13_two_level_refines_nonempty :
+  forall (t : table) (es : list entry),
+    table_wf t es ->
+    length (t_index t) = length (t_blocks t) ->
+    Forall (fun b => b <> []) (t_blocks t) ->
+    es <> [] ->
+    forall ops, tl_run t tl_new ops = (lc_run es None ops, true).
+Proof. exact two_level_refines_nonempty. Qed.
+Print Assumptions C13_two_level_refines_nonempty.
+
+(** Without the non-emptiness side condition the refinement statement is false: on the table
+    without blocks [seek_to_last] underflows ([block_entries.len() - 1] on the empty index
+    block) while the list cursor stays invalid. *)
+Theorem C13_two_level_empty_table_counterexample :
+  let t := mkTable [] [] in
+  table_wf t [] /\ length (t_index t) = length (t_blocks t) /\
+  Forall (fun b => b <> []) (t_blocks t) /\
+  tl_run t tl_new [CLast] = ([], false) /\
+  lc_run [] None [CLast] = [None].
+Proof. exact two_level_empty_table_counterexample. Qed.
+Print Assumptions C13_two_level_empty_table_counterexample.
+
+(** Point lookups (with the D3 repair) return exactly what the newest entry of the user key at
+    or below the sequence bound dictates, whatever the filter answers for absent keys. *)
+Theorem C13_table_get_spec :
+  forall (t : table) (es : list entry) (filt : nat -> bytes -> bool) (target : ikey),
+    table_wf t es ->
+    length (t_index t) = length (t_blocks t) ->
+    Forall (fun b => b <> []) (t_blocks t) ->
+    (forall i u, (exists e, In e (nth i (t_blocks t) []) /\ ik_user (fst e) = u) -> filt i u = true) ->
+    table_get true filt t target = get_spec es target.
+Proof. exact table_get_meets_spec. Qed.
+Print Assumptions C13_table_get_spec.
+
+(** Sensitivity: the pinned code ([d3fix = false]) violates the same statement. *)
+Theorem C13_table_get_unfixed_refuted :
+  exists t es filt target,
+    table_wf t es /\
+    length (t_index t) = length (t_blocks t) /\
+    Forall (fun b => b <> []) (t_blocks t) /\
+    (forall i u, (exists e, In e (nth i (t_blocks t) []) /\ ik_user (fst e) = u) -> filt i u = true) /\
+    table_get false filt t target <> get_spec es target.
+Proof. exact table_get_unfixed_refuted. Qed.
+Print Assumptions C13_table_get_unfixed_refuted.
+
+(** Non-vacuity: a three-block table produced by [table_build] (five versions of one user key
+    crossing a block cut, a tombstone first in its block) satisfies every hypothesis ... *)
+Example C13_example_built : table_build ex13_es [1%nat; 2%nat] = Some ex13_t.
+Proof. exact ex13_built. Qed.
+
+Example C13_example_hypotheses :
+  table_wf ex13_t ex13_es /\
+  length (t_index ex13_t) = length (t_blocks ex13_t) /\
+  Forall (fun b => b <> []) (t_blocks ex13_t) /\
+  (forall i u, (exists e, In e (nth i (t_blocks ex13_t) []) /\ ik_user (fst e) = u) ->
+               exact_filt ex13_t i u = true).
+Proof. exact ex13_hyps. Qed.
+Print Assumptions C13_example_hypotheses.
+
+(** ... its lookups give all three kinds of answers ... *)
+Example C13_example_gets :
+  let get := table_get true (exact_filt ex13_t) ex13_t in
+  get (mkIKey [107; 107] 100 OP_PUT) = GFound [2] /\
+  get (mkIKey [107; 107] 6 OP_PUT) = GFound [3] /\
+  get (mkIKey [107; 107] 7 OP_PUT) = GDeleted /\
+  get (mkIKey [107; 107] 1 OP_PUT) = GNotFound /\
+  get (mkIKey [98] 5 OP_PUT) = GNotFound /\
+  get (mkIKey [122; 122] 0 OP_PUT) = GNotFound /\
+  get (mkIKey [126] 5 OP_PUT) = GNotFound /\
+  table_get false (exact_filt ex13_t) ex13_t (mkIKey [126] 5 OP_PUT) = GDeleted /\
+  (forall k, In k [mkIKey [107; 107] 100 OP_PUT; mkIKey [107; 107] 6 OP_PUT; mkIKey [107; 107] 7 OP_PUT;
+                   mkIKey [107; 107] 1 OP_PUT; mkIKey [98] 5 OP_PUT; mkIKey [122; 122] 0 OP_PUT;
+                   mkIKey [126] 5 OP_PUT] ->
+             get k = get_spec ex13_es k).
+Proof. exact ex13_gets. Qed.
+
+(** ... and a 52-operation script with direction reversals, moves on an invalid iterator and
+    seeks (39 of the 52 reported positions are valid) evaluates as the list cursor does. *)
+Example C13_example_script :
+  tl_run ex13_t tl_new ex13_script = (lc_run ex13_es None ex13_script, true) /\
+  length (filter (fun x => match x with Some _ => true | None => false end)
+                 (lc_run ex13_es None ex13_script)) = 39%nat.
+Proof. exact ex13_script_refines. Qed.
+Print Assumptions C13_example_script.
